@@ -1062,6 +1062,14 @@ func checkCase(c *caseT, r *vh.Rng, add func(pending), fail func(kind, key, summ
 				}
 			}
 		}
+		// "inputs untouched" includes the container the inputs are passed in: Merge is called with
+		// every sub-slice xs[:j] of a slice that has spare capacity (and with len == cap, nil, empty,
+		// the receiver among the arguments, the same counter twice); after each call EVERY element of
+		// the full slice must be the same pointer with the same bytes as before, each result must be the
+		// union, and finally the full slice is merged and compared with the union (and the model).
+		if o.OK() && len(total) <= 40000 {
+			containerHistories(c, r, parts, add, fail)
+		}
 		// model of the merge (only for moderate sizes: the single-counter line already ties the state)
 		if len(total) <= 70000 {
 			ls := make([]string, k)
@@ -1104,6 +1112,38 @@ func checkCase(c *caseT, r *vh.Rng, add func(pending), fail func(kind, key, summ
 			fail("property", "rebuild:bytes-differ", "BuildHyperLogLog(GetBytes()).GetBytes() differs", replayOf(c, nil))
 		case rcard != base.card:
 			fail("property", "rebuild:estimate-differs", "the rebuilt counter's estimate differs", replayOf(c, nil))
+		}
+		// the byte slice handed to BuildHyperLogLog is a container too: spare capacity beyond len and the
+		// bytes themselves stay as they were, also after the rebuilt counter is used
+		if len(c.items) <= 40000 {
+			bad := ""
+			og := vh.Guard(func() {
+				n := len(base.bytes)
+				buf := make([]byte, n+96)
+				for i := range buf {
+					buf[i] = byte(0xA5 ^ i)
+				}
+				copy(buf[16:], base.bytes)
+				keep := append([]byte(nil), buf...)
+				arg := buf[16 : 16+n : 16+n+32] // len n, 32 spare bytes of capacity, 48 more behind and 16 in front
+				h2 := hll.BuildHyperLogLog(arg)
+				if h2 == nil {
+					return
+				}
+				if !bytes.Equal(buf, keep) {
+					bad = "BuildHyperLogLog wrote into its argument (or around it)"
+					return
+				}
+				bump(h2, p, r)
+				h2.AddAll(build(p, c.items).h)
+				_ = h2.GetBytes()
+				if !bytes.Equal(buf, keep) {
+					bad = "using the rebuilt counter wrote into the byte slice it was built from (or around it)"
+				}
+			})
+			if og.OK() && bad != "" {
+				fail("property", "rebuild:container-modified", bad, replayOf(c, map[string]interface{}{"history": bad}))
+			}
 		}
 		// the rebuilt counter, the original and the byte slice are independent of each other
 		if len(c.items) <= 40000 {
@@ -1390,6 +1430,58 @@ func registerSetSection(env *vh.Env, rep *vh.Report, rng *vh.Rng, add func(pendi
 		add(pending{line: line, want: strings.Join(res, ",") + " " + wordsHex(rs.M), what: "RS", key: "RegisterSet:get-set-update", info: count})
 		rep.Case(line, true)
 		rep.Count("rs:ops")
+	}
+	// NewRegisterSetInit adopts the slice it is given: with spare capacity behind len, no operation
+	// may touch the words beyond len (nor may Merge touch its argument's)
+	for s := 0; s < 60; s++ {
+		pw := uint(rng.Intn(9))
+		count := 1 << pw
+		n := count/6 + 1
+		backing := make([]uint32, n+5)
+		for i := range backing {
+			backing[i] = 0x2A5A5A5A ^ uint32(i)
+		}
+		for i := 0; i < n; i++ {
+			backing[i] = 0
+		}
+		keep := append([]uint32(nil), backing...)
+		other := make([]uint32, n+3)
+		for i := range other {
+			other[i] = uint32(rng.U64()) & 0x3fffffff
+		}
+		keepOther := append([]uint32(nil), other...)
+		bad := ""
+		o := vh.Guard(func() {
+			rs := hll.NewRegisterSetInit(count, backing[:n:n+5])
+			for pos := 0; pos < count; pos++ {
+				rs.Set(uint32(pos), uint32(rng.Intn(32)))
+				rs.UpdateIfGreater(uint32(pos), uint32(rng.Intn(32)))
+			}
+			for i := n; i < n+5; i++ {
+				if backing[i] != keep[i] {
+					bad = "Set/UpdateIfGreater wrote beyond the length of the word slice"
+					return
+				}
+			}
+			rs.Merge(hll.NewRegisterSetInit(count, other[:n:n+3]))
+			for i := n; i < n+5; i++ {
+				if backing[i] != keep[i] {
+					bad = "Merge wrote beyond the length of the receiver's word slice"
+					return
+				}
+			}
+			for i := range other {
+				if other[i] != keepOther[i] {
+					bad = "Merge wrote into its argument's word slice"
+					return
+				}
+			}
+		})
+		if !o.OK() || bad != "" {
+			rep.Fail("property", "RegisterSet:writes-outside-its-words", bad+" "+o.String(), map[string]interface{}{"count": count, "words": n})
+		}
+		rep.Count("rs:spare-capacity")
+		rep.Evaluations++
 	}
 	// word-wise merge
 	nm := 2000
@@ -1847,4 +1939,194 @@ func fnvBytes(b []byte) string {
 		h *= 1099511628211
 	}
 	return strconv.FormatUint(h, 16)
+}
+
+// ---------------------------------------------------------------- containers of inputs
+
+// containerHistories: the slice that carries the arguments of the variadic Merge is an input too.
+func containerHistories(c *caseT, r *vh.Rng, parts [][]item, add func(pending), fail func(kind, key, summary string, replay interface{})) {
+	p := c.p
+	// the element item lists: the parts plus two small extra counters, so that there are ≥ 4 elements
+	elems := append([][]item(nil), parts...)
+	for e := 0; e < 2; e++ {
+		var ex []item
+		for i := 0; i < 1+r.Intn(6); i++ {
+			ex = append(ex, item{true, r.U64()})
+		}
+		elems = append(elems, ex)
+	}
+	n := len(elems)
+	recvItems := []item{{true, r.U64()}, {false, uint64(uint32(r.U64()))}}
+	if len(c.items) > 0 && r.Bool() {
+		recvItems = append(recvItems, c.items[r.Intn(len(c.items))])
+	}
+	unionBytes := func(lists ...[]item) []byte {
+		var hs []uint32
+		for _, l := range lists {
+			for _, it := range l {
+				hs = append(hs, hashOf(it))
+			}
+		}
+		return packRegs(p, specRegs(p, hs))
+	}
+	rpl := func(extra map[string]interface{}) map[string]interface{} {
+		es := make([]interface{}, n)
+		for j := range elems {
+			if len(elems[j]) <= 1024 {
+				es[j] = itemStrings(elems[j])
+			} else {
+				es[j] = fmt.Sprintf("%d items", len(elems[j]))
+			}
+		}
+		m := map[string]interface{}{"p": p, "receiver": itemStrings(recvItems), "slice_elements": es}
+		for k, v := range extra {
+			m[k] = v
+		}
+		return m
+	}
+	type variant struct {
+		name     string
+		spare    int  // capacity beyond n
+		recvIn   int  // index at which the receiver itself is an element (-1: not)
+		dupOf    int  // element that is the same counter as element 0 (-1: none)
+	}
+	variants := []variant{{"spare-capacity", 3, -1, -1}, {"len==cap", 0, -1, -1}, {"receiver-among-arguments", 2, 1, -1}, {"same-counter-twice", 1, -1, n - 1}}
+	for _, v := range variants {
+		bad := ""
+		var extra map[string]interface{}
+		var finalBytes []byte
+		var finalCard uint64
+		og := vh.Guard(func() {
+			recv := build(p, recvItems).h
+			lists := append([][]item(nil), elems...)
+			backing := make([]*hll.HyperLogLog, n, n+v.spare)
+			for j := range backing {
+				backing[j] = build(p, lists[j]).h
+			}
+			if v.recvIn >= 0 {
+				backing[v.recvIn] = recv
+				lists[v.recvIn] = recvItems
+			}
+			if v.dupOf >= 0 {
+				backing[v.dupOf] = backing[0]
+				lists[v.dupOf] = lists[0]
+			}
+			// what lies behind len in the backing array is the caller's as well
+			full := backing[:cap(backing)]
+			sentinels := make([]*hll.HyperLogLog, 0)
+			for j := n; j < len(full); j++ {
+				full[j] = build(p, []item{{true, r.U64()}}).h
+				sentinels = append(sentinels, full[j])
+			}
+			ptr := append([]*hll.HyperLogLog(nil), full...)
+			snap := make([][]byte, len(full))
+			for j := range full {
+				snap[j] = full[j].GetBytes()
+			}
+			recvSnap := recv.GetBytes()
+			check := func(what string, j int) bool {
+				for i := range full {
+					if full[i] != ptr[i] {
+						bad = fmt.Sprintf("%s: element #%d of the caller's slice (len %d, cap %d) was replaced by another counter", what, i, n, cap(backing))
+						extra = map[string]interface{}{"variant": v.name, "call": what, "subslice_len": j, "element": i}
+						return false
+					}
+					if !bytes.Equal(full[i].GetBytes(), snap[i]) {
+						bad = fmt.Sprintf("%s: the registers of element #%d of the caller's slice changed", what, i)
+						extra = map[string]interface{}{"variant": v.name, "call": what, "subslice_len": j, "element": i}
+						return false
+					}
+				}
+				if !bytes.Equal(recv.GetBytes(), recvSnap) {
+					bad = what + ": the receiver changed"
+					extra = map[string]interface{}{"variant": v.name, "call": what, "subslice_len": j}
+					return false
+				}
+				return true
+			}
+			// nil and empty
+			for _, a := range []struct {
+				name string
+				arg  []*hll.HyperLogLog
+			}{{"Merge(nil...)", nil}, {"Merge(xs[:0]...)", backing[:0]}, {"Merge([]{}...)", []*hll.HyperLogLog{}}} {
+				res := recv.Merge(a.arg...)
+				if !check(a.name, 0) {
+					return
+				}
+				if !bytes.Equal(res.GetBytes(), unionBytes(recvItems)) {
+					bad = a.name + " is not a copy of the receiver"
+					extra = map[string]interface{}{"variant": v.name, "call": a.name}
+					return
+				}
+			}
+			// every sub-slice xs[:j], j = 1..n  (spare capacity for j < cap)
+			for j := 1; j <= n; j++ {
+				what := fmt.Sprintf("recv.Merge(xs[:%d]...)", j)
+				res := recv.Merge(backing[:j]...)
+				if !check(what, j) {
+					return
+				}
+				want := unionBytes(append([][]item{recvItems}, lists[:j]...)...)
+				if !bytes.Equal(res.GetBytes(), want) {
+					bad = what + " is not the union of the receiver and the first " + fmt.Sprint(j) + " elements"
+					extra = map[string]interface{}{"variant": v.name, "call": what, "subslice_len": j}
+					return
+				}
+				// an element as receiver, the rest of the prefix as arguments
+				if j >= 2 {
+					what2 := fmt.Sprintf("xs[0].Merge(xs[1:%d]...)", j)
+					res2 := backing[0].Merge(backing[1:j]...)
+					if !check(what2, j) {
+						return
+					}
+					if !bytes.Equal(res2.GetBytes(), unionBytes(lists[:j]...)) {
+						bad = what2 + " is not the union of the first " + fmt.Sprint(j) + " elements"
+						extra = map[string]interface{}{"variant": v.name, "call": what2, "subslice_len": j}
+						return
+					}
+				}
+			}
+			// multi-step: after all those calls the caller uses the full slice
+			res := recv.Merge(backing...)
+			if !check("recv.Merge(xs...) after the sub-slice calls", n) {
+				return
+			}
+			finalBytes = res.GetBytes()
+			finalCard = res.Cardinality()
+			if !bytes.Equal(finalBytes, unionBytes(append([][]item{recvItems}, lists...)...)) {
+				bad = "after Merge calls on sub-slices, merging the caller's full slice is not the union of its elements"
+				extra = map[string]interface{}{"variant": v.name, "call": "recv.Merge(xs...)"}
+				return
+			}
+			// the counters behind len are still the caller's and still usable
+			for i, sv := range sentinels {
+				if full[n+i] != sv {
+					bad = "a counter stored behind the length of the caller's slice was replaced"
+					return
+				}
+			}
+			// model of the final union
+			if v.name == "spare-capacity" {
+				ls := []string{hashList(recvItems)}
+				tot := len(recvItems)
+				for _, l := range lists {
+					ls = append(ls, hashList(l))
+					tot += len(l)
+				}
+				if tot <= 70000 {
+					add(pending{line: fmt.Sprintf("MRG %d %s", p, strings.Join(ls, "|")),
+						want: fmt.Sprintf("%s %d", vh.Hex(finalBytes), finalCard), c: c, what: "MRG", info: rpl(map[string]interface{}{"variant": v.name})})
+				}
+			}
+		})
+		if !og.OK() {
+			fail("property", "merge:panic", "Merge over a sub-slice history panicked ("+v.name+"): "+vh.Clip(og.Panic, 200), rpl(map[string]interface{}{"variant": v.name}))
+		} else if bad != "" {
+			if extra == nil {
+				extra = map[string]interface{}{"variant": v.name}
+			}
+			extra["history"] = bad
+			fail("property", "merge:container-modified", bad, rpl(extra))
+		}
+	}
 }
